@@ -129,7 +129,7 @@ func errClassMerged(err error) string {
 // RunC03: the merged view is a newest-wins overlay in key order.
 func RunC03(c *Ctx) {
 	r := c.Rep
-	r.Rule = "case = one scan or seek through a merged view (raw NewMerged, and Stack.Merged() over hand-placed files) of 1..6 generated tables with increasing update-index ranges over a small overlapping key alphabet (updates, deletions, re-creations, log tombstones); expected = newest-wins overlay computed from the inputs; distinct = (table set, view, kind, key); non-trivial = some key of the set occurs in >= 2 tables"
+	r.Rule = "case = one scan or seek through a merged view (raw NewMerged, and Stack.Merged() over hand-placed files) of 1..6 generated tables with increasing update-index ranges over a small overlapping key alphabet (updates, deletions, re-creations, log tombstones); expected = newest-wins overlay computed from the inputs; distinct = (table set, view, kind, key); non-trivial = some key of the set occurs in >= 2 tables; plus per table/view a few hundred Next calls spread over 2..4 iterators of the ONE Reader/Merged that are open at the same time and advanced in turn, new seeks issued in between (interleaved-iterators oracle: each yields what it yields alone)"
 	n := c.N(1500, 40000)
 	props := []string{"C03"}
 	for idx := 0; idx < n; idx++ {
@@ -503,7 +503,7 @@ func checkRefsFor(c *Ctx, r *rep.Report, props []string, what string, tab reftab
 // RunC11: RefsFor returns exactly the live refs pointing at an object.
 func RunC11(c *Ctx) {
 	r := c.Rep
-	r.Rule = "case = one RefsFor(oid) call on (a) a writer-produced table with pooled object ids (object index present / skipped / position lists omitted, min update index > 0), (b) a raw merged view and (c) a stack view over generated table sets; oids = every occurring id (<= 40 per table) plus absent ids; expected = filter of the generator's list / of the overlay, with absolute update indices; distinct = (table or set, view, oid); non-trivial = the expected result is non-empty or the table has an object section"
+	r.Rule = "case = one RefsFor(oid) call on (a) a writer-produced table with pooled object ids (object index present / skipped / position lists omitted, min update index > 0), (b) a raw merged view and (c) a stack view over generated table sets; oids = every occurring id (<= 40 per table) plus absent ids; expected = filter of the generator's list / of the overlay, with absolute update indices; distinct = (table or set, view, oid); non-trivial = the expected result is non-empty or the table has an object section; plus per table/view a few hundred Next calls spread over 2..4 iterators of the ONE Reader/Merged that are open at the same time and advanced in turn, new seeks issued in between (interleaved-iterators oracle: each yields what it yields alone)"
 	props := []string{"C11"}
 	n := c.N(600, 20000)
 	for idx := 0; idx < n; idx++ {
